@@ -59,6 +59,18 @@ CHECKS = {
         "Trusted: numpy tensordot; areas are judged by C05; dyadic-rational data make float64 sums exact.",
         "DESIGN.md section 6, C06",
     ),
+    "C14": (
+        "property-based testing (Hypothesis) against an exact rational-arithmetic oracle, margin-controlled generation, metamorphic relations",
+        "Exploration: cases carry the actual float vectors; the exact relation (point on the arc's great circle and between its "
+        "endpoints; number and position of common points of two arcs) is decided with fractions.Fraction on those floats, and a "
+        "verdict is issued only when every decision boundary is >= 1e-6 rad away. Positive on-circle cases come from the nine "
+        "planes where float coordinates make the determinant vanish identically (equator, meridians incl. pole-crossing and "
+        "antimeridian arcs, tilted circles). Extreme latitudes are compared with an independent apex formula cross-checked by "
+        "sampling. Metamorphic: endpoint swap, arc swap, rotation about the polar axis.",
+        "Trusted: Python Fraction arithmetic; vlib/sphere.py for margins and the apex formula; inputs inside the library's "
+        "documented 1e-8 pole-snapping cap (but not exactly at the pole) give no verdict.",
+        "DESIGN.md section 6, C14",
+    ),
     "C16": (
         "property-based testing (Hypothesis): independent geodesic oracle + per-edge reference differences/gradients",
         "Exploration: generated grids (mixed, partial with boundary edges, n_face above/below n_node, MPAS-like sources with "
